@@ -31,6 +31,10 @@ L3: oracle on the real code against the simulated tags: right key -> True, wrong
     after an authentication is accepted by the card whatever was written before, no internal exception leaves
     authenticate()/read_with_mac()/write_with_mac()/protect(), data is not returned under the session of an
     authentication that was followed by a failed one (open finding stale-session-after-failed-auth).
+    tag.ndef around authenticate(): every octet of tag.ndef.octets obtained after a successful authenticate() was read
+    together with a MAC that verifies under the session of THAT authentication (independent MAC computation), the
+    attribute block included; on NTAG21x the first tag.ndef after a successful authenticate()/protect() is read from
+    the tag again (nothing cached from before is served); open finding ndef-mac-failure-typeerror.
     Whatever the code does that the case code cannot interpret is reported as a failing input of that case (Guard).
 """
 import logging
@@ -74,6 +78,10 @@ THEOREMS = [
     "NfcVerif.C20.every_session_complete",
     "NfcVerif.C20.auth_write_auth_complete",
     "NfcVerif.C20.protect_then_authenticate_complete",
+    # the public attribute tag.ndef around authenticate() (Model/AuthNdef.lean)
+    "NfcVerif.C20.ndef_after_auth_is_mac_verified",
+    "NfcVerif.C20.auth_drops_ndef_cache",
+    "NfcVerif.C20.ndef_read_again_after_authenticate",
     "NfcVerif.C20.short_frame_refused",
     "NfcVerif.C20.ntag_auth_true_length",
 ]
@@ -840,6 +848,8 @@ def _ntag(ck, rng, T, add, rb, N):
         for v in range(65536):
             answer(products[2], pwd, pack, pw, v.to_bytes(2, "big"), "two-octets-all")
 
+    _ntag_ndef(ck, rng, T, add, rb, N, products)
+
     # protect(password) then authenticate: every kind of password, on tags that hold ANOTHER password
     kinds = ["none", "empty", "empty-bytearray", "short", "exact6", "longer", "default6", "bytearray", "same-as-old"]
     default = b"\xFF\xFF\xFF\xFF\x00\x00"
@@ -885,3 +895,69 @@ def _ntag(ck, rng, T, add, rb, N):
                 if r2 != ("ok true" if expect else "ok false"):
                     ck.fail("protect-then-auth", "%s held %s, protect(%s) -> True, then authenticate(%s) -> %s, expected %s"
                             % (prod, old.hex(), pwhex, hx(other), r2, expect), dict(rep, authenticate=hx(other)))
+
+
+def _ntag_ndef(ck, rng, T, add, rb, N, products):
+    """NTAG21x: what tag.ndef hands out around authenticate() / protect() (the NDEF cache of nfc.tag.Tag; there is no
+    MAC on this tag, so the statement is: after a successful authenticate() - or protect() - tag.ndef is READ FROM
+    THE TAG again and not served from what was read, possibly falsified or before the pages were protected, earlier).
+    Tie: the cache decisions (value handed out, tag read or not) against NfcVerif.TagCache.crun."""
+    patterns = ["N A N", "N A N N", "N X N", "N A X N", "N C N", "N C A N", "N C N A N", "A N C N", "N T N", "N T C N A N",
+                "N Tr N", "Tr N A N", "N A N T N", "N Tn N", "X N A N N", "N A C N A N"]
+    for i in range(len(patterns) * (6 if T else 2)):
+        words = patterns[i % len(patterns)].split()
+        prod = products[i % len(products)]
+        pwd, pack = rb(4), rb(2)
+        key = pwd + pack
+        protected = i % 3 == 1                              # pages from 4 on already need the password for reading
+        msg = rb(rng.choice([0, 1, 7, 20, 33]))      # NTAG210 has a data area of 40 octets
+        info = {"product": prod, "password": key.hex(), "read_protected": protected, "calls": words, "message": msg.hex()}
+        with Guard(ck, "ntag-ndef", info):
+            tag = N.NtagTag(prod, pwd, pack, auth0=4 if protected else 0xFF, prot=protected)
+
+            def store(m):
+                tag.mem[16:16 + 3 + len(m)] = bytes([3, len(m)]) + m + b"\xFE"
+            store(msg)
+            falsify = (i // len(patterns)) % 2 == 1 and not protected
+            air, t = N.activate(tag)
+            if falsify:                                      # the first unprotected NDEF read is modified in transit
+                air.transit = Tamper({("r", 1): xor_mask(bytes(8) + b"\x04")})
+            toks, real, auth_ok, current = [], [], False, msg
+            for wi, w in enumerate(words):
+                x0 = air.n
+                if w == "C":                                 # somebody else rewrites the message on the tag
+                    current = rb(len(current)) if current else rb(3)
+                    store(current)
+                    continue
+                if w == "N":
+                    r = outcome(lambda: (lambda o: None if o is None else bytes(o.octets))(t.ndef), show_opt)
+                    fetched = air.n > x0
+                    val = r[3:] if r.startswith("ok ") else "exc:" + r[4:]
+                    toks.append("n:%s" % (val if fetched and r.startswith("ok ") else "none"))
+                    real.append("%s/%s" % (val, "f" if fetched else "c"))
+                    what = "%s, calls %s: call %d tag.ndef -> %s (%s)" % (prod, " ".join(words), wi, val[:60],
+                                                                        "read from the tag" if fetched else "cached")
+                    if r.startswith("exc") and r[4:] in INTERNAL:
+                        ck.fail("auth-internal-exception", what, info)
+                    if auth_ok == "fresh":
+                        if not fetched:
+                            ck.fail("ndef-after-auth-from-cache", what + " although authenticate()/protect() succeeded since it "
+                                    "was read; the tag now holds %s" % current.hex(), info)
+                        elif not (falsify and x0 <= 1) and r != "ok " + hx(current):
+                            ck.fail("ndef-after-auth-wrong-data", what + ", the tag holds %s" % current.hex(), info)
+                        auth_ok = True
+                    ck.case(("ntag-ndef", i, wi, r), True, "ntag:ndef:%s:%s" % ("fetched" if fetched else "cached", r[:7]))
+                    continue
+                if w in ("A", "X"):
+                    air.sense()
+                    r = outcome(lambda: t.authenticate(key if w == "A" else rb(6)), show_bool)
+                    toks.append("a:%s" % ("t" if r == "ok true" else "f" if r == "ok false" else "e"))
+                else:
+                    pw = None if w == "Tn" else key
+                    r = outcome(lambda: t.protect(pw, read_protect=(w == "Tr"), protect_from=4), show_bool)
+                    toks.append("t:%s" % ("t" if r == "ok true" else "f" if r == "ok false" else "e"))
+                real.append("none/c" if r.startswith("ok ") else "exc:TagCommandError(0)/c")
+                if r.startswith("exc") and r[4:] in INTERNAL:
+                    ck.fail("auth-internal-exception", "%s: %s -> %s" % (prod, w, r), info)
+                auth_ok = "fresh" if r == "ok true" else False
+            add("ntag-ndef-cache", "cache " + " ".join(toks), " ".join(real), ("ntag-cache", i, tuple(toks)), True, "ntag:ndef-cache")
